@@ -116,6 +116,17 @@ CHECKS["C16"] = dict(
          "location probes run on a prepared scratch directory. Outside: app/compliance manifests, argparse/ConfigParser internals, "
          "the --conf option, several options set simultaneously through load_all.")
 
+CHECKS["C18"] = dict(
+    text="Bounded symbolic execution of the real PlaybookSerializer on plays whose strings (values and mapping keys) are symbolic "
+         "over an alphabet of letters, both quotes, backslash, brackets, comma, space, newline, tab and a zero-width space: a "
+         "reference reader of the output format decodes the text under the same path condition and the solver must prove "
+         "decode(serialize(p)) == p, i.e. the serialisation that is hashed is injective within the bound (depth<=1 quick / <=2 "
+         "thorough, <=2 entries, strings <=1-3 chars); 22 kinds of single edits (value, type, order, nesting, key) outside the "
+         "excluded elements must change the digest text (old/new strings symbolic) and edits inside must not; exclusion requests "
+         "from a segment pool, missing vars/signature/list and the revocation look-up follow the stated rules.",
+    note="Stubs: GPG verification returns (True, real digest); revocation list injected. Outside: UTF-8 + SHA-256 (assumed "
+         "injective / collision resistant), GPG, ruamel YAML loading, the Python<3.12 str(play) branch.")
+
 NOT_APPLICABLE = {
 }
 
